@@ -153,6 +153,7 @@ PROPS = {
         "design_ref": "DESIGN.md section 5, C03",
         "summary": ("Pruning safety, plan-side half: the effect lattice ExprClass::join (least upper bound, all 27 triples), the builtin effect "
                     "tables (every receiver-mutating, I/O or process builtin is Impure; the two independent tables agree), "
+                    "the liveness bit-set helpers set_local / clear_local / contains_local / word_count verified by Verus over the abstract member() view with a whole-view frame, "
                     "opt::stmt_effective_class (Impure on an unavailable summary, otherwise joined with every callee's TRANSITIVE class), "
                     "note_max_reference / declaration_is_runtime_removable, OptimizationPlan membership on sorted vectors, and the runtime "
                     "gate Runtime::stmt_is_pruned / function_is_pruned (exactly plan membership; nothing without a plan)."),
@@ -168,10 +169,11 @@ PROPS = {
         "summary": ("Lexical resolution, lookup mechanisms: after ProgramFacts::finalize_pointer_bindings the sorted pointer tables answer "
                     "expr_local / stmt_local / string_segment_local with exactly the recorded binding (None for unrecorded keys) for every "
                     "recording order, and Runtime::lookup_local_env / lookup_local_mut return the innermost scope's latest slot with the "
-                    "queried id for every assignment of ids to a 3x2 scope stack."),
+                    "queried id for every assignment of ids to a 3x2 scope stack; Resolver::lookup_var_info / lookup_func resolve a name to the innermost "
+                    "scope's latest declaration / the innermost defining block."),
         "not_covered": ("that resolver ids and the dynamic scope search compose to lexical scoping under recursion (needs an invariant "
                         "relating the activation stack to the scope tree across eval_function_call), argument evaluation order, "
-                        "Resolver::lookup_var_info / lookup_func and per-block predeclaration, function tables (user_call_callee, function_by_body)."),
+                        "per-block predeclaration, assign/define_bound_local (Value's recursive drop glue explodes in CBMC), function tables (user_call_callee, function_by_body)."),
         "trusted_base": [KANI_TRUST, OS_TRUST],
     },
     "C06": {
